@@ -248,22 +248,22 @@ theorem atoi_regionEndText (x : Gff) (h : inInt x.regionEnd = true) :
 
 /-! ### the FASTA section of Build -/
 
-theorem fasta_tail (re : Int) (seq : Str) (h : ∀ c ∈ seq, seqChar c = true) :
-    (∀ l ∈ split '\n' (wrapSeq re 0 seq ++ ['\n']), ∀ c ∈ l, seqChar c = true)
-    ∧ (split '\n' (wrapSeq re 0 seq ++ ['\n'])).flatten = seq := by
+theorem fasta_tail (brk : Nat → Bool) (seq : Str) (h : ∀ c ∈ seq, seqChar c = true) :
+    (∀ l ∈ split '\n' (wrapWith brk 0 seq ++ ['\n']), ∀ c ∈ l, seqChar c = true)
+    ∧ (split '\n' (wrapWith brk 0 seq ++ ['\n'])).flatten = seq := by
   have hnl : '\n' ∉ seq := fun hm => (seqChar_facts (h _ hm)).1 rfl
   constructor
   · intro l hl c hc
     have := split_mem hl c hc
-    have hmem : c ∈ wrapSeq re 0 seq := by
+    have hmem : c ∈ wrapWith brk 0 seq := by
       rcases List.mem_append.1 this.1 with hm | hm
       · exact hm
       · simp only [List.mem_singleton] at hm
         exact absurd hm this.2
-    rcases wrapSeq_mem re 0 seq c hmem with hm | hm
+    rcases wrapWith_mem brk 0 seq c hmem with hm | hm
     · exact h c hm
     · exact absurd hm this.2
-  · rw [split_flatten, List.filter_append, wrapSeq_filter re 0 seq hnl]
+  · rw [split_flatten, List.filter_append, wrapWith_filter brk 0 seq hnl]
     simp
 
 /-! ### slices and 1-based inclusive ranges -/
